@@ -1,4 +1,5 @@
 """Shared driver for the properties decided on spec/Resources.tla (C11, C12, C17)."""
+import itertools
 import json
 
 from .. import common, replay, tla
@@ -27,6 +28,8 @@ def consts(maps=3, handles=2, depth=2, layers=2, gen=2, ops='Ops_Tree', builders
          'MaxLayers': layers, 'MaxGen': gen, 'Phased': 'TRUE' if phased else 'FALSE',
          'Builders': _set(builders) if builders else None, 'Receivers': _set(receivers) if receivers else None}
     ov = {'MapOrder': 'MapOrder%d' % maps, 'Ops': ops, 'KindChoices': kinds, 'ClsChoices': cls}
+    if ops.startswith('{'):         # a literal set is a cfg constant, a name is an override
+        c['Ops'] = ov.pop('Ops')
     for k in ('Builders', 'Receivers'):
         if c[k] is None:
             del c[k]
@@ -37,41 +40,116 @@ def consts(maps=3, handles=2, depth=2, layers=2, gen=2, ops='Ops_Tree', builders
     return c, ov
 
 
-def check_and_replay(res, name, c, ov, invariants, properties, own, probe, depth_all=3, walks=1500, walk_len=20,
-                     full=False):
+def tour_paths(g, max_len=60, hop=2):
+    """Behaviours that together take every edge of the graph once: walk to a state along the BFS tree, then keep
+    following edges not taken yet; when stuck, hop (at most `hop` edges) to the nearest state that still has some.
+    Same coverage as replay.edge_paths at a fraction of the steps (BFS prefixes are not repeated once per edge)."""
+    todo = {s: list(reversed(outs)) for s, outs in g.out.items() if s in g.depth}
+
+    dead = set()        # states with nothing left within `hop` edges (stays true: todo only shrinks)
+
+    def nearest(src):
+        if src in dead:
+            return None
+        seen, frontier = {src}, [(src, [])]
+        for _ in range(hop):
+            nxt = []
+            for s, path in frontier:
+                for e in g.out.get(s, ()):
+                    if e[2] not in seen:
+                        seen.add(e[2])
+                        if todo[e[2]]:
+                            return path + [e]
+                        nxt.append((e[2], path + [e]))
+            frontier = nxt
+        dead.add(src)
+        return None
+
+    for s in sorted(todo, key=lambda x: (g.depth[x], x)):
+        while todo[s]:
+            prefix = g.path_to(s)
+            labs = [(x[1], x[2]) for x in prefix]
+            tg = [x[3] for x in prefix]
+            cur = s
+            while len(labs) < max_len:
+                if todo[cur]:
+                    more = [todo[cur].pop()]
+                else:
+                    more = nearest(cur)
+                    if more is None:
+                        break
+                for name, args, d in more:
+                    labs.append((name, args))
+                    tg.append(d)
+                    cur = d
+            yield (prefix[0][0] if prefix else s, labs, tg)
+
+
+def check_and_replay(res, name, c, ov, invariants, properties, own, probe, depth_all=3, walks=1000, walk_len=25,
+                     shifts=(0,), before_replay=None):
     """(M) TLC on the instance, (C) its whole state graph replayed on the real classes.
 
-    The graph is explored under VIEW View: back-links of nodes that no map holds are stale in tree.py and never
-    read, so states that differ only there are one state.  `full` adds a run without the view (thorough tier).
+    Every edge of the dumped graph is taken (tour_paths) once per rotation of the value kinds in `shifts`, then all
+    short paths (from the initial state, or from every just-sealed tree when the instance is phased) and random walks.
     """
     desper = common.import_desper()
-    if full:
-        res.model_check('ResourcesMC', name + '_noview', c, invariants=invariants, properties=properties, overrides=ov)
-    r, g = res.model_check('ResourcesMC', name, c, invariants=invariants, properties=properties, overrides=ov,
-                           dump=True, count=not full)
+    r, g = res.model_check('ResourcesMC', name, c, invariants=invariants, properties=properties, overrides=ov, dump=True)
+    if before_replay:
+        before_replay()         # background TLC runs are joined before the replayer forks
     depth = int(c['MaxDepth'])
+    phased = c['Phased'] == 'TRUE'
 
-    def factory():
-        return ra.ResourcesAdapter(desper, probe=probe, depth=depth)
+    def factory(shift):
+        return lambda: ra.ResourcesAdapter(desper, probe=probe, depth=depth, kind_shift=shift)
 
-    st = replay.run_paths(g, factory, replay.edge_paths(g), own=own)
-    res.absorb(st, name + ':every-edge', g)
-    if not st.n_violations and depth_all:
-        st = replay.run_paths(g, factory, replay.all_paths(g, depth_all), own=own)
-        res.absorb(st, name + ':all-paths-depth-%d' % depth_all, g)
+    for k in shifts:
+        st = replay.run_paths(g, factory(k), tour_paths(g), own=own, chunk=50)
+        if st.n_violations:
+            # the same edges again, each behind its shortest history: short replay files
+            st = replay.run_paths(g, factory(k), replay.edge_paths(g), own=own)
+        res.absorb(st, '%s:every-edge:kinds+%d' % (name, k), g)
+        if st.n_violations:
+            return g
+    if depth_all:
+        if phased:
+            starts = just_sealed(g)
+            paths = itertools.chain(paths_from(g, starts, depth_all - 1), paths_from(g, starts[:3], depth_all))
+            what = '%s:all-paths-depth-%d-after-seal' % (name, depth_all)
+        else:
+            paths, what = replay.all_paths(g, depth_all), '%s:all-paths-depth-%d' % (name, depth_all)
+        st = replay.run_paths(g, factory(shifts[-1] + 1), paths, own=own)
+        res.absorb(st, what, g)
     if not st.n_violations and walks:
-        st = replay.run_paths(g, factory, replay.random_walks(g, walks, walk_len, res.seed), own=own)
+        # a phased instance spends a few steps building, then stays in the access phase
+        weight = (lambda e: 4 if e[0] == 'Seal' else 1) if phased else None
+        st = replay.run_paths(g, factory(shifts[-1] + 2), replay.random_walks(g, walks, walk_len, res.seed, weight=weight),
+                              own=own)
         res.absorb(st, name + ':random-walks', g)
-    for s, labs, _t in replay.random_walks(g, 1, 10, res.seed + 1):
+    for s, labs, _t in replay.random_walks(g, 1, 12, res.seed + 1, weight=(lambda e: 4 if e[0] == 'Seal' else 1)):
         res.sample({'config': name, 'kind': str(dict(g.states[s]['kind'])), 'cls': str(dict(g.states[s]['cls'])),
                     'calls': ['%s%s' % (n, tla.to_json(a)) for n, a in labs]})
     return g
 
 
-def switch_run(res, name, c, ov, invariants, properties, expect):
-    """Non-vacuity: with one switch at its as-implemented value TLC must report one of `expect`."""
-    res.model_check('ResourcesMC', name, c, invariants=invariants, properties=properties, overrides=ov,
-                    expect_violation=expect, count=False)
+def switch_runs(res, runs):
+    """Non-vacuity: with one switch at its as-implemented value TLC must report one of `expect`.
+    runs = [(name, (c, ov), invariants, properties, expect)].  The (small) TLC runs go side by side in threads;
+    call the returned function to wait for them (before any fork)."""
+    from concurrent.futures import ThreadPoolExecutor
+
+    def one(r):
+        name, (c, ov), invariants, properties, expect = r
+        res.model_check('ResourcesMC', name, c, invariants=invariants, properties=properties, overrides=ov,
+                        expect_violation=expect, count=False, workers=2)
+
+    ex = ThreadPoolExecutor(len(runs))
+    futs = [ex.submit(one, r) for r in runs]
+
+    def join():
+        for f in futs:
+            f.result()
+        ex.shutdown()
+    return join
 
 
 def note_leniencies(res, items):
@@ -103,3 +181,35 @@ def replay_file(res, path, configs):
 
 def _untuple(a):
     return tuple(_untuple(x) for x in a) if isinstance(a, list) else a
+
+
+def paths_from(g, starts, depth):
+    """Every path of `depth` steps from each state in `starts`, behind its shortest history."""
+    for s in starts:
+        prefix = g.path_to(s)
+        labs0 = [(x[1], x[2]) for x in prefix]
+        tg0 = [x[3] for x in prefix]
+        start = prefix[0][0] if prefix else s
+        stack = [(s, [], [])]
+        while stack:
+            cur, labs, tg = stack.pop()
+            outs = g.out.get(cur, ())
+            if len(labs) == depth or not outs:
+                if labs:
+                    yield (start, labs0 + labs, tg0 + tg)
+                continue
+            for (n, a, d) in outs:
+                stack.append((d, labs + [(n, a)], tg + [d]))
+
+
+def just_sealed(g):
+    """States right after Seal, richest trees first (number of names in use, then layers)."""
+    out = []
+    for s, outs in g.out.items():
+        for (n, a, d) in outs:
+            if n == 'Seal':
+                st = g.states[d]
+                size = sum(len(tla.fmap(v)) for v in tla.fmap(st['abs']).values())
+                lay = sum(len(v) for v in tla.fmap(st['layers']).values())
+                out.append((-size, -lay, d))
+    return [d for _s, _l, d in sorted(set(out))]
